@@ -1,0 +1,29 @@
+//go:build verif
+
+package udp
+
+import "sync"
+
+// Scheduling points for the verification harness. VerifSetYield installs a
+// function that is called at the named points; it may block to force a
+// particular interleaving.
+
+var (
+	verifYieldMu sync.Mutex
+	verifYieldFn func(point string)
+)
+
+func VerifSetYield(f func(point string)) {
+	verifYieldMu.Lock()
+	verifYieldFn = f
+	verifYieldMu.Unlock()
+}
+
+func verifYield(point string) {
+	verifYieldMu.Lock()
+	f := verifYieldFn
+	verifYieldMu.Unlock()
+	if f != nil {
+		f(point)
+	}
+}
